@@ -280,7 +280,9 @@ def run_c10(ctx):
                rule='every integer in [-%d, %d]; +-(2^k+d) for %d values of k up to 16384, |d|<=3; random integers up to 8192 bits; '
                     'all 1-byte and %s 2-byte strings, random strings up to 40 bytes; float32 bit patterns: every sign x exponent x %d mantissas. '
                     'int_to_bytes / bytes_to_int compared with the extracted model (the model asks the oracle for floor(log2) of numbers >= 2^32, '
-                    'as the theorem leaves it open); direct oracle: round trip, sign bit, two\'s complement, totality; H-log2 checked on the same grid.'
+                    'as the theorem leaves it open); direct oracle: round trip, sign bit, two\'s complement, totality; H-log2 checked on the same grid. '
+                    'Integer instructions (add / subtract / mult / div / mod, immediate and stack forms, push1) on operands of 7..4000 bits written as decimal '
+                    'literals: compiled by the real compiler, run on the VM and on the extracted model, result compared with Python integers.'
                     % (lim, lim, len(ks), 'all' if tier != 'quick' else 'boundary', len(mant)),
                stream_counts=dict(stats), float_patterns=fl_n, programs=n_eval, disagreements_checked=len(disagreements))
     return dict(coverage=cov, disagreements=disagreements, violations=violations,
